@@ -7,6 +7,9 @@ from vf.ref.ecref import SECP256K1 as S
 from vf.runner import Acc, filler
 
 PROPERTY = "C12"
+# E6: seq_ops() indices of the operations that are interrupted at every line (vf/seqexplore.interrupted); probes = the whole alphabet
+INTERRUPT_X = [1, 2]
+INTERRUPT_PROBES = None
 CONCUR_FILES = ('bits/bips/bip340.py', 'bits/ecmath.py')
 # (thread a, thread b), warm-up: indices into seq_ops() - the ordinary single-case checks run concurrently (vf/concur.py)
 CONCUR_SCEN = [((1, 8), (0,)), ((2, 9), (1,)), ((2, 2), (7, 8)), ((1, 8, 2), ())]   # the last one: three threads
@@ -25,6 +28,7 @@ OBLIGATIONS = {
     "concurrent_calls": "interleavings of two concurrent calls (single-case checks in two threads, cold and after warm-up calls)",
     "hashed_length_at_chunk_boundary": "a message whose hashed length is at / next to a multiple of a common chunk size (up to 2 MiB)",
     "long_history": "operations executed in one long history (every key of a 199-element group, forward / forward / reverse)",
+    "interrupted_calls": "interruption points explored (an earlier call cut short by an asynchronous exception, then ordinary calls)",
     "history_sequences": "operation sequences (non-initial process states) explored",
     "concurrent_first_calls": "interleavings of two concurrent first BIP340 calls explored",
     "e_zero": "a triple with challenge e = 0 (mod n) was signed or verified",
@@ -171,6 +175,9 @@ def run_case(kind, case):
     if kind == "concurcase":
         from vf import concur
         return concur.replay_cases(run_case, PROPERTY, case, CONCUR_FILES)
+    if kind == "interrupted":
+        from vf import seqexplore
+        return seqexplore.replay_interrupted(run_case, case)
     if kind == "seq":
         from vf import seqexplore
         return seqexplore.replay(run_case, case)
@@ -274,6 +281,8 @@ def jobs(tier, seed):
     js += seq_jobs(2, weight=6, name="seqreal")
     from vf.runner import long_jobs
     js += long_jobs(curve=list(T[5]))
+    from vf.runner import interrupt_jobs
+    js += interrupt_jobs(len(INTERRUPT_X), curve=list(T[0]))
     for sh in range(4):
         js.append({"name": f"secp/longmsg/{sh}", "part": "real-longmsg", "shard": [sh, 4], "weight": 6})
     from vf.runner import concur_jobs
@@ -292,6 +301,11 @@ def run_job(job):
     if job["part"] == "longhist":
         from vf.runner import run_long_job
         return run_long_job(job, long_ops(job), run_case)
+    if job["part"] == "interrupted":
+        from vf.runner import run_interrupt_job
+        ops = [o for o in seq_ops(dict(job, part="interrupted", shard=[0, 1]))]
+        probes = ops if INTERRUPT_PROBES is None else [ops[i] for i in INTERRUPT_PROBES]
+        return run_interrupt_job(job, [ops[i] for i in INTERRUPT_X], probes, run_case, CONCUR_FILES)
     if job["part"] == "seq":
         from vf.runner import run_seq_job
         return run_seq_job(job, seq_ops(job), run_case)
